@@ -110,8 +110,11 @@ def _read_once(tr, case, entry):
             prints.append((path_to_id(root, path), line, text.strip()))
         lookups = [tr.path("d2/b"), tr.path("d3/a")]
         try:
+            # the directory / file arguments are documented as iterables: lists, tuples and one-shot iterables in turn
+            form = idnum(case["defs"][0]) % 3 if case["defs"] else 0
+            wrap = (lambda xs: list(xs)) if form == 0 else (lambda xs: tuple(xs)) if form == 1 else (lambda xs: (x for x in list(xs)))
             if entry == "namespace":
-                direct = pydsdl.read_namespace(tr.path("d1/a"), lookups, print_output_handler=ph,
+                direct = pydsdl.read_namespace(tr.path("d1/a"), wrap(lookups), print_output_handler=ph,
                                                allow_unregulated_fixed_port_id=True)
                 transitive = None
             else:
@@ -129,7 +132,7 @@ def _read_once(tr, case, entry):
                     else:
                         alt = os.path.join(tr.path(head), "..", os.path.basename(head), tail)
                     targets = [alt] + targets if variant == 0 else targets + [alt]
-                direct, transitive = pydsdl.read_files(targets, [tr.path("d1/a")], lookups, print_output_handler=ph,
+                direct, transitive = pydsdl.read_files(wrap(targets), wrap([tr.path("d1/a")]), wrap(lookups), print_output_handler=ph,
                                                        allow_unregulated_fixed_port_id=True)
         except BaseException as ex:
             if isinstance(ex, (KeyboardInterrupt, SystemExit)):
